@@ -19,6 +19,7 @@ pub fn draw_client_op(sw: &Swarm, w: &World, rng: &mut Rng) -> ClientOp {
             session: w.sessions.len(),
             addr: richest_address(w, rng),
             limit: *rng.pick(&[1usize, 2, 3, 7, 0]),
+            min_conf: draw_min_conf(w, rng),
         },
         1 => {
             let open: Vec<usize> = w.sessions.iter().filter(|(_, s)| !s.done).map(|(k, _)| *k).collect();
@@ -27,6 +28,7 @@ pub fn draw_client_op(sw: &Swarm, w: &World, rng: &mut Rng) -> ClientOp {
                     session: w.sessions.len(),
                     addr: richest_address(w, rng),
                     limit: *rng.pick(&[1usize, 2, 3, 7]),
+                    min_conf: draw_min_conf(w, rng),
                 }
             } else {
                 ClientOp::NextPage { session: *rng.pick(&open) }
@@ -64,6 +66,15 @@ pub fn draw_client_op(sw: &Swarm, w: &World, rng: &mut Rng) -> ClientOp {
     }
 }
 
+fn draw_min_conf(w: &World, rng: &mut Rng) -> Option<u32> {
+    if rng.chance(1, 3) {
+        let len = w.best_chain().len() as u32;
+        Some(rng.range(1, len.max(1) as u64) as u32)
+    } else {
+        None
+    }
+}
+
 fn richest_address(w: &World, rng: &mut Rng) -> usize {
     // prefer an address that owns many outputs at the best tip
     let tip = w.best_tip();
@@ -95,7 +106,7 @@ fn other_network(own: Network, k: u8) -> Network {
 impl World {
     pub fn run_client(&mut self, op: &ClientOp) -> Result<bool, Violation> {
         match op {
-            ClientOp::OpenSession { session, addr, limit } => self.open_session(*session, *addr, *limit),
+            ClientOp::OpenSession { session, addr, limit, min_conf } => self.open_session(*session, *addr, *limit, *min_conf),
             ClientOp::NextPage { session } => self.next_page(*session),
             ClientOp::RawPage { addr, seed, len, from_session, flip } => self.raw_page(*addr, *seed, *len, *from_session, *flip),
             ClientOp::FeePercentiles => self.fee_request(),
@@ -114,15 +125,20 @@ impl World {
         }
     }
 
-    fn open_session(&mut self, session: usize, addr: usize, limit: usize) -> Result<bool, Violation> {
+    fn open_session(&mut self, session: usize, addr: usize, limit: usize, min_conf: Option<u32>) -> Result<bool, Violation> {
         if !self.data_gate_open() || self.sessions.contains_key(&session) {
             return Ok(false);
         }
         let addrs = self.net.wallet.addresses();
         let a = addrs[addr % addrs.len()].clone();
-        let r = self.page_call(&a, None, limit).map_err(|t| violation("C06", "first-page-trap", t.0))?;
+        let first_filter = min_conf.map(UtxosFilterInRequest::MinConfirmations);
+        if min_conf.is_some() {
+            self.stats.probe("session_with_min_confirmations");
+        }
+        let r = self.page_call(&a, first_filter, limit).map_err(|t| violation("C06", "first-page-trap", t.0))?;
         let resp = match r {
             Ok(r) => r,
+            Err(GetUtxosError::MinConfirmationsTooLarge { .. }) if min_conf.is_some() => return Ok(true),
             Err(e) => return Err(violation("C06", "first-page-error", format!("{e:?}"))),
         };
         let mut tip = [0u8; 32];
